@@ -843,8 +843,7 @@ def _r12(model, res, c):
     ply_callers = set()
     for k, (m2, f2) in c.cg.funcs.items():
         for n in ast.walk(f2):
-            if isinstance(n, ast.Call) and isinstance(n.func, ast.Attribute) and n.func.attr == 'parse' and \
-                    isinstance(n.func.value, ast.Attribute) and n.func.value.attr in c.cg.yacc_attrs:
+            if c.cg.is_yacc_parse(f2, n):
                 ply_callers.add(k)
     # ... directly or through helpers of parse()
     reaching = set(k for k in c.cg.funcs if k in ply_callers or (c.cg.reachable([k]) & ply_callers))
